@@ -51,14 +51,23 @@ func digestUnordered(q qframe.QFrame) string {
 	return fmt.Sprint(o.Names(), rows)
 }
 
-var c11Ctx *eval.Context
+// one evaluation context shared by all operations (created at package initialisation: the harness
+// itself must not initialise anything lazily inside the racing operations)
+var c11Ctx = eval.NewDefaultCtx()
 
-func c11EvalCtx() *eval.Context {
-	if c11Ctx == nil {
-		c11Ctx = eval.NewDefaultCtx()
-	}
-	return c11Ctx
-}
+func c11EvalCtx() *eval.Context { return c11Ctx }
+
+var (
+	c11SharedClause = qframe.Or(
+		qframe.And(qframe.Filter{Column: "i", Comparator: ">", Arg: 1}, qframe.Filter{Column: "k", Comparator: "=", Arg: 1}),
+		qframe.Filter{Column: "s", Comparator: "like", Arg: "b%"},
+		qframe.Not(qframe.Or(qframe.Filter{Column: "f", Comparator: "<", Arg: 0.0}, qframe.Filter{Column: "e", Comparator: "=", Arg: "hi"})),
+		qframe.Filter{Column: "i", Comparator: "<", Arg: 2})
+	c11SharedOrders = []qframe.Order{{Column: "e", Reverse: true, NullLast: true}, {Column: "k"}, {Column: "i", Reverse: true}}
+	c11SharedInstr  = []qframe.Instruction{{Fn: 7, DstCol: "n"}, {Fn: "ToUpper", DstCol: "u", SrcCol1: "s"}, {Fn: types.ColumnName("i"), DstCol: "n2"}}
+	c11SharedExpr   = qframe.Expr("+", qframe.Expr("*", types.ColumnName("i"), 2), types.ColumnName("k"), 1)
+	c11SharedAggs   = []qframe.Aggregation{{Fn: "sum", Column: "i"}, {Fn: "max", Column: "f", As: "mf"}, {Fn: "count", Column: "s", As: "n"}}
+)
 
 // c11Prime runs the error paths once on the frame (misuse that must yield Err): whatever such a
 // call leaves behind in process-wide state (pools, caches) is then present when the operations
@@ -213,6 +222,23 @@ func c11Ops() []concOp {
 		{"WithRowNums", false, func(q qframe.QFrame, y func()) string { return digestFrame(q.WithRowNums("rn")) }},
 		{"ToCSV", false, func(q qframe.QFrame, y func()) string { var b bytes.Buffer; _ = q.ToCSV(&b); return b.String() }},
 		{"ToJSON", false, func(q qframe.QFrame, y func()) string { var b bytes.Buffer; _ = q.ToJSON(&b); return b.String() }},
+		// argument values shared between the calls (clauses, orders, instructions, aggregations and
+		// expressions are plain values a program builds once and uses from many goroutines)
+		{"Filter(shared Or(And,leaf,Not,leaf))", false, func(q qframe.QFrame, y func()) string {
+			return digestFrame(q.Filter(c11SharedClause))
+		}},
+		{"Sort(shared orders)", false, func(q qframe.QFrame, y func()) string {
+			return digestFrame(q.Sort(c11SharedOrders...))
+		}},
+		{"Apply(shared instructions)", false, func(q qframe.QFrame, y func()) string {
+			return digestFrame(q.Apply(c11SharedInstr...))
+		}},
+		{"Eval(shared expression)", false, func(q qframe.QFrame, y func()) string {
+			return digestFrame(q.Eval("n", c11SharedExpr, eval.EvalContext(c11EvalCtx())))
+		}},
+		{"Aggregate(shared aggregations)", false, func(q qframe.QFrame, y func()) string {
+			return digestUnordered(q.GroupBy(groupby.Columns("k")).Aggregate(c11SharedAggs...))
+		}},
 		{"String", false, func(q qframe.QFrame, y func()) string { return q.String() }},
 		{"Equals", false, func(q qframe.QFrame, y func()) string {
 			a, b := q.Equals(q.Sort(qframe.Order{Column: "i"}))
@@ -232,7 +258,8 @@ func c11Base() qframe.QFrame {
 	return model.Build(model.Frame{N: 4, Cols: []model.Col{
 		{Name: "i", Kind: model.Int, Cells: []model.Cell{model.I(3), model.I(1), model.I(2), model.I(5)}},
 		{Name: "k", Kind: model.Int, Cells: []model.Cell{model.I(1), model.I(0), model.I(1), model.I(0)}},
-		{Name: "f", Kind: model.Float, Cells: []model.Cell{model.F(1.5), model.NaN(), model.F(-2), model.NaN()}},
+		// 3e40 and -1e300: more than 32 / 256 trailing zeros in positional notation
+		{Name: "f", Kind: model.Float, Cells: []model.Cell{model.F(3e40), model.NaN(), model.F(-1e300), model.NaN()}},
 		{Name: "s", Kind: model.String, Cells: []model.Cell{model.S("abca"), model.Null(), model.S("aıxa"), model.S("b")}},
 		{Name: "e", Kind: model.Enum, EnumVals: []string{"lo", "hi"}, Cells: []model.Cell{model.S("lo"), model.Null(), model.S("hi"), model.S("lo")}},
 	}})
@@ -448,9 +475,14 @@ func c11Run(ctx *core.Ctx) {
 			}
 		}
 	}
-	// (b) free-running race pass in the -race binary (one worker drives it)
-	if ctx.Shard == 0 {
-		runRacePass(ctx)
+	// (b) free-running race pass in the -race binary: ONE PROCESS PER PAIR of operations (so that each pair
+	// meets cold process-wide state), the pairs distributed over the workers
+	for a := range ops {
+		for b := a; b < len(ops); b++ {
+			if ctx.Mine() {
+				runRacePass(ctx, fmt.Sprintf("%d,%d", a, b))
+			}
+		}
 	}
 }
 
@@ -467,7 +499,6 @@ type raceResult struct {
 // Markers on stderr delimit the pairs so that race reports can be attributed.
 func RacePassMain(tier string, only string) int {
 	ops := c11Ops()
-	base := c11Base()
 	reps := 3
 	if tier == "thorough" {
 		reps = 10
@@ -475,21 +506,24 @@ func RacePassMain(tier string, only string) int {
 	res := raceResult{}
 	for a := range ops {
 		for b := a; b < len(ops); b++ {
-			for _, rel := range c11Relations {
-				key := fmt.Sprintf("%d,%d,%s", a, b, rel)
-				if only != "" && only != key {
+			pairKey := fmt.Sprintf("%d,%d", a, b)
+			// relations in rotated order: process-wide state (package-level buffers, pools, caches) is
+			// cold only for the first relation a process runs, and every relation gets to be first for some pairs
+			for ri := range c11Relations {
+				rel := c11Relations[(ri+a+b)%len(c11Relations)]
+				key := pairKey + "," + rel
+				if only != "" && only != key && only != pairKey {
 					continue
 				}
-				fa, fb := firstFrame(base, rel), related(base, rel)
-				if rel == "derived" {
-					fb = fa
-				}
-				wa, wb := ops[a].run(fa, noYield), ops[b].run(fb, noYield)
+				var fa, fb qframe.QFrame
+				type outcome struct{ ga, gb string }
+				var got []outcome
 				fmt.Fprintf(os.Stderr, "\nPAIR-BEGIN %s\n", key)
 				for r := 0; r < reps; r++ {
 					if r%2 == 0 {
-						// cold start: fresh frames nothing has run on yet (state built lazily on first
-						// use is then built by the two racing operations); odd repetitions re-use them warm
+						// cold start: fresh frames nothing has run on yet, and no sequential reference run
+						// before the racing one (state built lazily on first use is then built by the two
+						// racing operations); odd repetitions re-use the frames warm
 						fresh := c11Base()
 						c11Prime(c11Base())
 						fa, fb = firstFrame(fresh, rel), related(fresh, rel)
@@ -506,11 +540,22 @@ func RacePassMain(tier string, only string) int {
 					close(start)
 					wg.Wait()
 					res.Runs++
-					if ga != wa || gb != wb {
-						res.Mismatches = append(res.Mismatches, fmt.Sprintf("%s (%s | %s): concurrent results differ from the sequential ones", key, ops[a].name, ops[b].name))
-					}
+					got = append(got, outcome{ga, gb})
 				}
 				fmt.Fprintf(os.Stderr, "\nPAIR-END %s\n", key)
+				// the sequential reference, afterwards, on equal frames of their own
+				ref := c11Base()
+				ra, rb := firstFrame(ref, rel), related(ref, rel)
+				if rel == "derived" {
+					rb = ra
+				}
+				wa, wb := ops[a].run(ra, noYield), ops[b].run(rb, noYield)
+				for _, g := range got {
+					if g.ga != wa || g.gb != wb {
+						res.Mismatches = append(res.Mismatches, fmt.Sprintf("%s (%s | %s): concurrent results differ from the sequential ones", key, ops[a].name, ops[b].name))
+						break
+					}
+				}
 				res.Pairs++
 			}
 		}
@@ -585,10 +630,10 @@ func tailStr(s string, n int) string {
 	return s
 }
 
-func runRacePass(ctx *core.Ctx) {
-	res, races, err := runRaceBinary(ctx.Tier, "")
+func runRacePass(ctx *core.Ctx, pair string) {
+	res, races, err := runRaceBinary(ctx.Tier, pair)
 	if err != nil {
-		ctx.Report(concCase{Kind: "race"}, core.Failf("race pass could not be run: %v", err))
+		ctx.Report(concCase{Kind: "race"}, core.Failf("race pass could not be run for pair %s: %v", pair, err))
 		return
 	}
 	ctx.Add("race_pairs", int64(res.Pairs))
@@ -605,7 +650,8 @@ func runRacePass(ctx *core.Ctx) {
 		// a reported pair is re-run alone before it is believed
 		confirmed := 0
 		for i := 0; i < 5; i++ {
-			if _, r2, err := runRaceBinary(ctx.Tier, key); err == nil && len(r2) > 0 {
+			// the whole pair again in a fresh process (the relation may need to meet cold process-wide state)
+			if _, r2, err := runRaceBinary(ctx.Tier, pair); err == nil && len(r2[key]) > 0 {
 				confirmed++
 			}
 		}
@@ -635,12 +681,13 @@ func runConcCase(c concCase) *core.Failure {
 			return core.Failf("race pass failed to run")
 		}
 		key := fmt.Sprintf("%d,%d,%s", c.Ops[0], c.Ops[1], c.Rel)
+		pair := fmt.Sprintf("%d,%d", c.Ops[0], c.Ops[1])
 		for i := 0; i < 5; i++ {
-			res, races, err := runRaceBinary("quick", key)
+			res, races, err := runRaceBinary("quick", pair)
 			if err != nil {
 				return core.Failf("race binary: %v", err)
 			}
-			if len(races) > 0 {
+			if len(races[key]) > 0 {
 				return core.Failf("data race reproduced for pair %s:\n%s", key, tailStr(races[key], 1500))
 			}
 			if len(res.Mismatches) > 0 {
@@ -666,8 +713,8 @@ func init() {
 		},
 		Level: "model_checking",
 		Rule: "(a) controlled cooperative scheduler: logical threads each run one operation on the same frame or on a frame sharing storage with it (slice, sorted copy, column copy); scheduling points are operation start, operation end and EVERY user callback invocation (filter predicate, apply fn0/fn1/fn2, aggregation function, eval function; the callback yields before it reads its arguments). " +
-			"All interleavings (no preemption bound) for every unordered pair and self-pair of 12 callback-bearing operations x 5 sharing relations (same frame, slice, sorted copy, column copy, both on one frame that was itself derived by adding columns) and for each callback operation against each of 23 callback-free operations; three threads with preemption bound 2 (thorough 3). Oracle: every operation returns what it returns alone, the shared frame is unchanged, no panic; replay of a choice prefix must find the recorded number of enabled threads. states = schedules executed, transitions = scheduling points. " +
-			"(b) free-running pass in a -race build: every unordered pair and self-pair of all 35 operations x 5 relations released together by a barrier, 3 (10) repetitions, results compared with the sequential ones; a race report is attributed by stderr markers and re-run alone 5 times before it is believed. Non-trivial = distinct (operation tuple, relation) explored by the scheduler.",
+			"All interleavings (no preemption bound) for every unordered pair and self-pair of 12 callback-bearing operations x 5 sharing relations (same frame, slice, sorted copy, column copy, both on one frame that was itself derived by adding columns) and for each callback operation against each of 28 callback-free operations; three threads with preemption bound 2 (thorough 3). Oracle: every operation returns what it returns alone, the shared frame is unchanged, no panic; replay of a choice prefix must find the recorded number of enabled threads. states = schedules executed, transitions = scheduling points. " +
+			"(b) free-running pass in a -race build: every unordered pair and self-pair of all 40 operations (five of them using argument values shared between the calls) x 5 relations released together by a barrier, one fresh process per pair (relations in rotated order, no sequential run before the racing one: process-wide and per-frame lazily built state is cold), 3 (10) repetitions, results compared with the sequential ones computed afterwards on equal frames; a race report is attributed by stderr markers and re-run 5 times in fresh processes before it is believed. Non-trivial = distinct (operation tuple, relation) explored by the scheduler.",
 		Assumptions: []string{
 			"qframe contains no synchronisation operation, so the scheduler can only regain control at operation boundaries and user callbacks; memory-access-level interleavings are covered by the race pass: two synchronisation-free operations forked from a barrier have no happens-before path between them in any schedule, so the Go race detector reports a conflicting access pair whichever schedule runs (limits: shadow memory keeps 4 accesses per word)",
 			"a data-race-free program is sequentially consistent (Go memory model); with no operation writing memory another reads, each returns its sequential result",
